@@ -542,12 +542,14 @@ def conformance(n=40, seed=1):
             continue
         for reg in [getattr(m, x) for x in dir(m) if x.startswith("REG")]:
             for c in reg.values():
-                if "self" in c.params or c.raises or c.exposes or not c.ensures:
+                if c.raises or not c.ensures:
                     continue
+                if ("self" in c.params or c.exposes) and not (c.witness and c.adapt and getattr(c, "unadapt", None)):
+                    continue            # methods / exposed locals need a witness generator and adapters between data and real objects
                 if c.modifies and not (c.witness and all(m.split(".")[0] in c.params for m in c.modifies)):
                     continue            # contracts with a frame need a witness generator (ghost parameters, shaped inputs)
-                if any("_" + g.lstrip("_") in str(e) for g in c.ghost_locals for _n, e in c.ensures):
-                    continue            # the postcondition mentions ghost state
+                if any("_" + g.lstrip("_") in str(e) for g in c.ghost_locals for _n, e in c.ensures if g not in c.exposes):
+                    continue            # the postcondition mentions ghost state that the adapters cannot supply
                 cases.append((c, reg))
     seen, clauses, bad, skipped = set(), 0, [], {}
     for c, reg in cases:
@@ -584,7 +586,8 @@ def conformance(n=40, seed=1):
             try:
                 if "cls" in real_args and type(c.params.get("cls")).__name__ == "TConst":
                     real_args = {k_: v_ for k_, v_ in real_args.items() if k_ != "cls"}      # classmethod: the class is bound already
-                res = fn(**real_args)
+                call_args = getattr(c, "call", None)
+                res = call_args(fn, real_args) if call_args else fn(**real_args)
                 res = list(res) if hasattr(res, "__next__") else res
             except Exception as e:                      # noqa: BLE001
                 if any(type(e).__name__ == x or (x == "OSError" and isinstance(e, OSError)) for x in c.raises_when):
@@ -607,16 +610,27 @@ def conformance(n=40, seed=1):
                     for term, val in zip(t.flat(v), flat_py(t, args[p])):
                         assign[term.decl().name()] = val
                 post_env = dict(sym_env)
-                for p in sorted({m.split(".")[0] for m in c.modifies}):
+                after = c.unadapt(real_args, res) if getattr(c, "unadapt", None) else {}
+                for p in sorted({m.split(".")[0] for m in c.modifies} | (set(after) & set(c.params))):
                     t = c.params[p]
                     v = t.fresh(p + "_after")
                     post_env[p] = v
-                    for term, val in zip(t.flat(v), flat_py(t, unrealize(real_args[p], t))):
+                    data = after[p] if p in after else unrealize(real_args[p], t)
+                    for term, val in zip(t.flat(v), flat_py(t, data)):
                         assign[term.decl().name()] = val
-                rv = c.result.fresh("result")
-                post_env["result"] = rv
-                for term, val in zip(c.result.flat(rv), flat_py(c.result, unrealize(res, c.result))):
-                    assign[term.decl().name()] = val
+                if c.result is not None:
+                    rv = c.result.fresh("result")
+                    post_env["result"] = rv
+                    data = after["result"] if "result" in after else unrealize(res, c.result)
+                    for term, val in zip(c.result.flat(rv), flat_py(c.result, data)):
+                        assign[term.decl().name()] = val
+                else:
+                    post_env["result"] = None
+                for gname, gtype in c.exposes.items():
+                    gv = gtype.fresh("exposed_" + gname)
+                    post_env[gname] = gv
+                    for term, val in zip(gtype.flat(gv), flat_py(gtype, after["exposes"][gname])):
+                        assign[term.decl().name()] = val
                 e2 = Engine(reg)
                 e2.contract = c
                 for name, ens in c.ensures:
